@@ -149,60 +149,60 @@ theorem countlineLoop_spec (fuel : Nat) : ∀ (b : Buf) (nc : Nat), WF b → b.r
 /-! ### anchors only touch `anchor`/`nanchor` -/
 
 /-- `b'` is `b` with a different anchor record -/
-def AnchorOnly (b b' : Buf) : Prop := ∃ a n, b' = { b with anchor := a, nanchor := n }
+def AnchorOnly (b b' : Buf) : Prop := ∃ a n t, b' = { b with anchor := a, nanchor := n, stab := t }
 
 theorem AnchorOnly.frame {b b' : Buf} (h : AnchorOnly b b') : Frame b b' := by
-  obtain ⟨a, n, rfl⟩ := h; exact ⟨rfl, rfl, rfl, rfl, rfl, Nat.le_refl _⟩
+  obtain ⟨a, n, t, rfl⟩ := h; exact ⟨rfl, rfl, rfl, rfl, rfl, Nat.le_refl _⟩
 
 theorem AnchorOnly.wf {b b' : Buf} (h : AnchorOnly b b') (hw : WF b) (ha : ∀ a, b'.anchor = some a → a ≤ b.pos) : WF b' := by
-  obtain ⟨a, n, rfl⟩ := h
+  obtain ⟨a, n, t, rfl⟩ := h
   exact ⟨hw.hwin, hw.hpos, fun x hx => Nat.le_trans (ha x hx) hw.hpos, hw.hps, hw.heof, hw.hnofp⟩
 
 theorem AnchorOnly.wf' {b b' : Buf} (h : AnchorOnly b b') (hw : WF b) (ha : ∀ a, b'.anchor = some a → a ≤ b.n) : WF b' := by
-  obtain ⟨a, n, rfl⟩ := h
+  obtain ⟨a, n, t, rfl⟩ := h
   exact ⟨hw.hwin, hw.hpos, ha, hw.hps, hw.heof, hw.hnofp⟩
 
 theorem AnchorOnly.same {b b' : Buf} (h : AnchorOnly b b') :
     b'.mem = b.mem ∧ b'.pos = b.pos ∧ b'.base = b.base ∧ b'.rest = b.rest ∧ b'.src = b.src := by
-  obtain ⟨a, n, rfl⟩ := h; exact ⟨rfl, rfl, rfl, rfl, rfl⟩
+  obtain ⟨a, n, t, rfl⟩ := h; exact ⟨rfl, rfl, rfl, rfl, rfl⟩
 
 theorem setAnchor_spec (b : Buf) (o : Nat) (h : WF b) (h1 : b.base ≤ o) (h2 : o ≤ b.base + b.pos) :
     (setAnchor b o).1 = .ok ∧ AnchorOnly b (setAnchor b o).2 ∧ WF (setAnchor b o).2 := by
   have hp := h.hpos
   unfold setAnchor
   split
-  · exact ⟨rfl, ⟨b.anchor, b.nanchor, rfl⟩, h⟩
+  · exact ⟨rfl, ⟨b.anchor, b.nanchor, b.stab, rfl⟩, h⟩
   · have : ¬ (o < b.base ∨ o > b.base + b.n) := by omega
     simp only [this, if_false]
     cases ha : b.anchor with
     | none =>
-      refine ⟨rfl, ⟨_, _, rfl⟩, AnchorOnly.wf ⟨_, _, rfl⟩ h ?_⟩
+      refine ⟨rfl, ⟨_, _, _, rfl⟩, AnchorOnly.wf ⟨_, _, _, rfl⟩ h ?_⟩
       intro a haa; simp at haa; omega
     | some a0 =>
       have ha0 := h.hanch a0 ha
       simp only []
       split
-      · refine ⟨rfl, ⟨_, _, rfl⟩, AnchorOnly.wf ⟨_, _, rfl⟩ h ?_⟩
+      · refine ⟨rfl, ⟨_, _, _, rfl⟩, AnchorOnly.wf ⟨_, _, _, rfl⟩ h ?_⟩
         intro a haa; simp at haa; omega
       · split
-        · refine ⟨rfl, ⟨_, _, rfl⟩, AnchorOnly.wf ⟨_, _, rfl⟩ h ?_⟩
+        · refine ⟨rfl, ⟨_, _, _, rfl⟩, AnchorOnly.wf ⟨_, _, _, rfl⟩ h ?_⟩
           intro a haa; simp at haa; omega
-        · exact ⟨rfl, ⟨b.anchor, b.nanchor, rfl⟩, h⟩
+        · exact ⟨rfl, ⟨b.anchor, b.nanchor, b.stab, rfl⟩, h⟩
 
 theorem raiseAnchor_spec (b : Buf) (o : Nat) (h : WF b) :
     AnchorOnly b (raiseAnchor b o) ∧ WF (raiseAnchor b o) := by
   unfold raiseAnchor
   cases ha : b.anchor with
-  | none => exact ⟨⟨b.anchor, b.nanchor, rfl⟩, h⟩
+  | none => exact ⟨⟨b.anchor, b.nanchor, b.stab, rfl⟩, h⟩
   | some a0 =>
     simp only []
     split
     · split
-      · refine ⟨⟨_, _, rfl⟩, AnchorOnly.wf ⟨_, _, rfl⟩ h ?_⟩
+      · refine ⟨⟨_, _, _, rfl⟩, AnchorOnly.wf ⟨_, _, _, rfl⟩ h ?_⟩
         intro a haa; simp at haa
-      · refine ⟨⟨_, _, rfl⟩, AnchorOnly.wf' ⟨_, _, rfl⟩ h ?_⟩
+      · refine ⟨⟨_, _, _, rfl⟩, AnchorOnly.wf' ⟨_, _, _, rfl⟩ h ?_⟩
         intro a haa; simp at haa; have := h.hanch a0 ha; omega
-    · exact ⟨⟨b.anchor, b.nanchor, rfl⟩, h⟩
+    · exact ⟨⟨b.anchor, b.nanchor, b.stab, rfl⟩, h⟩
 
 /-! ### buffer_countline -/
 
